@@ -20,6 +20,10 @@ try:
     sys.path.insert(0, HERE)
     import native
     print('native oracle:', native.build())
+    sc = native.selfcheck()
+    import json
+    json.dump(sc, open(os.path.join(native.ROOT, 'selfcheck.json'), 'w'))
+    print('native oracle self-check against qrcode 0.12:', sc['result'])
 except Exception as e:
     print('native oracle not built (bounded stand-in / replay search unavailable):', str(e)[:200])
 sys.exit(0 if ok else 1)
